@@ -35,7 +35,8 @@ def rounds(ctx):
                                                                   Meas={'m1'}, Clients={'w1'}, Kinds={'CreateStudy', 'SuggestTrials', 'CheckEarlyStopping', 'StopTrial'}),
            backends={'ram': 1.0, 'sqlmem': 1.0}, relevant={'CheckEarlyStopping'}),
       dict(name='faults_never_d4_wide', consts=speca.constants(MaxDepth=4, Recycle='never', **dict(base, MaxId=4, MaxCount=3, MaxDeliver=4, Params={'p1', 'p2'})),
-           expect=EXPECT, backends={'ram': 1.0, 'sqlmem': 1.0, 'sqlfile': 0.03}, relevant={'SuggestTrials', 'CheckEarlyStopping'}),
+           # 337 826 histories: all on RAM, a sample on SQLite (5 ms per history)
+           expect=EXPECT, backends={'ram': 1.0, 'sqlmem': 0.15, 'sqlfile': 0.03}, relevant={'SuggestTrials', 'CheckEarlyStopping'}),
   ]
 
 
